@@ -253,8 +253,9 @@ class _AreaIntegrator(_Integrator):
             # Scan rectangular image area, compute sample value.
             npix = 0
             accumulator = self.initialize_accumulator()
-            for j in range(j1, j2):
-                for i in range(i1, i2):
+            # the bounding box limits are inclusive
+            for j in range(j1, j2 + 1):
+                for i in range(i1, i2 + 1):
                     # Check if polar coordinates of each pixel
                     # put it inside elliptical sector.
                     rp, phip = self._geometry.to_polar(i, j)
